@@ -97,11 +97,12 @@ CLAIMED["C09"] = dict(
     technique="Lean 4 theorems on the signal slot algebra and the unfolding of the delivery round + spec monitor on the implementation's internal log + differential correspondence",
 )
 CLAIMED["C10"] = dict(
-    text="Proof (Lean 4) of the frame half of non-interference for all machines and oracles: any transition (with all internal follow-ups) and any limit decrement of machine j leaves machine i's whole runtime (state, limit, counters, guard flags, accounting), "
-         "its action slot and the framework-wide accounting untouched; the only shared state a step can change is rng, log, fault and the signal slot. The converse half (a machine's own steps read only its component) is not a theorem: it is checked "
-         "differentially (combined vs solo run of a draw-independent probe on the projected history) on the implementation and the model.",
+    text="Proof (Lean 4), full statement by simulation: for ANY two machine sets holding the same machine m at positions i and k (the solo run is the special case [m], 0), any history and the same history with ids renamed (i to k, neighbours to other or unknown ids), "
+         "all times, all fractions: if m has no transition on Signal and the two random sources agree on what m can observe (e.g. m has deterministic sampling and draws lie in [0,1) - proved sufficient - or the sources are state-independent), then after every history "
+         "the two frameworks agree on m's whole runtime and on the actions returned for m up to the machine id (C10_noninterference, C10_actions, C10_solo, C10_deterministic). Built from the frame half (a neighbour's steps leave m's component alone) and the locality half "
+         "(m's own steps are a function of its component, the globals and the draws). The implementation is tied to the model by the correspondence on every framework case and by differential combined-vs-solo runs (harness ni cases).",
     ref="5 (C10)",
-    technique="Lean 4 frame theorems over primitive steps (partial: frame half) + differential combined-vs-solo runs on the implementation + correspondence",
+    technique="Lean 4 simulation theorem (frame + locality of every model function, lifted over folds, calls, histories and construction) + differential combined-vs-solo runs on the implementation + correspondence",
 )
 
 CLAIMED["C06"] = dict(
